@@ -15,6 +15,10 @@ import (
 	"verif/ref"
 )
 
+// long-lived destination for Object.Parse (state from earlier objects must not show)
+var c12Elements = &simdjson.Elements{Elements: make([]simdjson.Element, 0, 2), Index: map[string]int{"stale-key": 7}}
+var c12ParseCalls int
+
 var c12Keys = []string{"a", "b", "ab", "ba", ""}
 var c12Probe = []string{"a", "b", "ab", "ba", "", "zz", "c"} // two absent keys, one of equal length
 
@@ -180,12 +184,21 @@ func c12Object(pj *simdjson.ParsedJson, docs []*ref.Node, p vpath, maxPath int) 
 			return fmt.Sprintf("ForEach(filter=%v) at %s called back {%s}, matching members are {%s}", keysOf(filter), p, clip(strings.Join(got, ",")), clip(strings.Join(want, ","))), "ForEach/filter"
 		}
 	}
-	// Parse / Lookup / Map
+	// Parse / Lookup / Map; the destination Elements is one long-lived value reused for
+	// every object of every document (and nil every other time)
 	obj, err := getObj()
 	if err != nil {
 		return err.Error(), "navigate"
 	}
-	els, err := obj.Parse(nil)
+	c12ParseCalls++
+	dstEls := c12Elements
+	if c12ParseCalls%3 == 0 {
+		dstEls = nil
+	}
+	els, err := obj.Parse(dstEls)
+	if err == nil && dstEls != nil {
+		c12Elements = els
+	}
 	if err != nil {
 		return "Object.Parse: " + err.Error(), "Parse"
 	}
